@@ -1,5 +1,6 @@
 import VyxalModel.Lemmas.ListLit
 import VyxalModel.Lemmas.NamedFn
+import VyxalModel.Lemmas.Modifiers
 /-!
 # The induction: fuel outside, program structure inside
 
@@ -232,7 +233,7 @@ theorem simSn_append (cfg : Cfg) (n : Nat) (s : Structure) (a b : List PyStmt) (
     (hseq : ∀ σ, execS cfg n s σ = (do let r ← execS cfg n s σ; pure r)) : True := trivial
 
 mutual
-theorem simS (cfg : Cfg) (env : TEnv) (hE : cfg.elements = env.elements) (n : Nat) (ih : ∀ m, m < n → SimAt cfg env m) :
+theorem simS (cfg : Cfg) (env : TEnv) (hE : cfg.elements = env.elements) (hM : ModsOK env.modifiers) (n : Nat) (ih : ∀ m, m < n → SimAt cfg env m) :
     ∀ (s : Structure), fragS env.elements s = true → ∀ (k : Nat) (code : List PyStmt) (k' : Nat),
       transpileS env k s = .ok (code, k') → SimSn cfg env n s code
   | .generic t, hf, k, code, k', ht => by
@@ -261,7 +262,7 @@ theorem simS (cfg : Cfg) (env : TEnv) (hE : cfg.elements = env.elements) (n : Na
       | ok r =>
         obtain ⟨cs, k1⟩ := r
         simp [hll] at ht; obtain ⟨h1, _⟩ := ht; subst h1
-        exact simS_if cfg n bs cs (simLL cfg env hE n ih bs hf k cs k1 hll)
+        exact simS_if cfg n bs cs (simLL cfg env hE hM n ih bs hf k cs k1 hll)
   | .forS names body, hf, k, code, k', ht => by
       simp only [fragS] at hf
       cases names with
@@ -314,7 +315,7 @@ theorem simS (cfg : Cfg) (env : TEnv) (hE : cfg.elements = env.elements) (n : Na
             obtain ⟨c2, k3⟩ := r3
             simp [hc1, hb, hc2] at ht; obtain ⟨h1, _⟩ := ht; subst h1
             have := sim_whileS_some cfg n c body (orPass c1) (orPass c2) (orPass b)
-              (sims_orPass' (simL cfg env hE n ih c hf.1 k c1 k1 hc1))
+              (sims_orPass' (simL cfg env hE hM n ih c hf.1 k c1 k1 hc1))
               (fun m hm => sims_orPass' (ih m hm c k2 c2 k3 hf.1 hc2))
               (fun m hm => sims_orPass' (ih m hm body k1 b k2 hf.2 hb))
             simpa using this
@@ -375,11 +376,79 @@ theorem simS (cfg : Cfg) (env : TEnv) (hE : cfg.elements = env.elements) (n : Na
         obtain ⟨cs, k1⟩ := r
         simp [hll] at ht; obtain ⟨h1, _⟩ := ht; subst h1
         exact simS_list cfg n ih items k cs k1 hf hll
-  | .mon _ _, hf, _, _, _, _ => by simp [fragS] at hf
-  | .dy _ _ _, hf, _, _, _, _ => by simp [fragS] at hf
-  | .tri _ _ _ _, hf, _, _, _, _ => by simp [fragS] at hf
+  | .mon m a, hf, k, code, k', ht => by
+      simp only [fragS] at hf
+      simp only [transpileS] at ht
+      cases hw : wrapLambda env k a with
+      | error e => simp [hw] at ht
+      | ok r =>
+        obtain ⟨fa, k1⟩ := r
+        cases hmt : modTemplate env m with
+        | error e => simp [hw, hmt] at ht
+        | ok tmpl =>
+          simp [hw, hmt] at ht; obtain ⟨h1, _⟩ := ht; subst h1
+          intro A σ π sg σ' h hr
+          unfold execS at hr
+          simp only at hr
+          obtain ⟨arE, B, hfa, hArE, hB, hfr⟩ := wrap_spec cfg env hE a k fa k1 hw hf
+          subst hfa
+          obtain ⟨π1, he1, hR1, hv1, _⟩ := sim_wrapper cfg n h "function_A" (by decide) (by decide) (digitsOfNat k) arE _ hArE _ B hB hfr
+            (σ.params.map (·.1) ++ σ.shadow)
+          obtain ⟨π2, he2, hP⟩ := sim_monTemplate cfg n (fun m hm => ih m (by omega)) hM hR1 m tmpl hmt σ.fns.length
+            ⟨(wrapArity cfg a).1, Option.none, (wrapArity cfg a).2, σ.params.map (·.1) ++ σ.shadow, true⟩ (by simp) rfl hv1 sg σ' hr
+          refine ⟨π2, ?_, hP⟩
+          have hcode : lambdaTemplate (digitsOfNat k) arE B ++ functionPop "A" :: tmpl =
+              (lambdaTemplate (digitsOfNat k) arE B ++ [assign1 (nm "function_A") pop1pos]) ++ tmpl := by
+            simp [functionPop]
+          rw [hcode, execPL_append, he1]
+          exact he2
+  | .dy m a b, hf, k, code, k', ht => by
+      simp only [fragS, Bool.and_eq_true] at hf
+      simp only [transpileS] at ht
+      cases hwa : wrapLambda env k a with
+      | error e => simp [hwa] at ht
+      | ok r =>
+        obtain ⟨fa, k1⟩ := r
+        cases hwb : wrapLambda env k1 b with
+        | error e => simp [hwa, hwb] at ht
+        | ok r2 =>
+          obtain ⟨fb, k2⟩ := r2
+          cases hmt : modTemplate env m with
+          | error e => simp [hwa, hwb, hmt] at ht
+          | ok tmpl =>
+            simp [hwa, hwb, hmt] at ht; obtain ⟨h1, _⟩ := ht; subst h1
+            intro A σ π sg σ' h hr
+            unfold execS at hr
+            simp only at hr
+            obtain ⟨arEa, Ba, hfa, hArEa, hBa, hfra⟩ := wrap_spec cfg env hE a k fa k1 hwa hf.1
+            obtain ⟨arEb, Bb, hfb, hArEb, hBb, hfrb⟩ := wrap_spec cfg env hE b k1 fb k2 hwb hf.2
+            subst hfa; subst hfb
+            obtain ⟨π1, he1, hR1, hv1, _⟩ := sim_wrapper cfg n h "function_A" (by decide) (by decide) (digitsOfNat k) arEa _ hArEa _ Ba hBa hfra
+              (σ.params.map (·.1) ++ σ.shadow)
+            obtain ⟨π2, he2, hR2, hv2, hkeep⟩ := sim_wrapper cfg n hR1 "function_B" (by decide) (by decide) (digitsOfNat k1) arEb _ hArEb _ Bb hBb hfrb
+              (σ.params.map (·.1) ++ σ.shadow)
+            have hvA2 : π2.getVar ("function_A", []) = some (.fn σ.fns.length) := by
+              rw [hkeep _ (by intro he; injection he with h1 _; exact absurd h1 (by decide)) (by decide) (by decide)]; exact hv1
+            simp only [List.append_assoc, List.cons_append, List.nil_append, List.length_append, List.length_cons, List.length_nil,
+              Nat.zero_add] at hR2 hv2
+            obtain ⟨π3, he3, hP⟩ := sim_dyTemplate cfg n (fun m hm => ih m (by omega)) hM hR2 m tmpl hmt σ.fns.length (σ.fns.length + 1)
+              ⟨(wrapArity cfg a).1, Option.none, (wrapArity cfg a).2, σ.params.map (·.1) ++ σ.shadow, true⟩
+              ⟨(wrapArity cfg b).1, Option.none, (wrapArity cfg b).2, σ.params.map (·.1) ++ σ.shadow, true⟩
+              (by simp) rfl hvA2 (by simp) rfl hv2 sg σ' hr
+            refine ⟨π3, ?_, hP⟩
+            have hcode : lambdaTemplate (digitsOfNat k) arEa Ba ++ functionPop "A" :: (lambdaTemplate (digitsOfNat k1) arEb Bb ++ functionPop "B" :: tmpl) =
+                (lambdaTemplate (digitsOfNat k) arEa Ba ++ [assign1 (nm "function_A") pop1pos]) ++
+                ((lambdaTemplate (digitsOfNat k1) arEb Bb ++ [assign1 (nm "function_B") pop1pos]) ++ tmpl) := by
+              simp [functionPop]
+            rw [hcode, execPL_append, he1]
+            simp only
+            rw [execPL_append, he2]
+            exact he3
+  | .tri _ _ _ _, _, _, _, _, _ => by
+      intro A σ π sg σ' h hr
+      simp [execS] at hr
 
-theorem simL (cfg : Cfg) (env : TEnv) (hE : cfg.elements = env.elements) (n : Nat) (ih : ∀ m, m < n → SimAt cfg env m) :
+theorem simL (cfg : Cfg) (env : TEnv) (hE : cfg.elements = env.elements) (hM : ModsOK env.modifiers) (n : Nat) (ih : ∀ m, m < n → SimAt cfg env m) :
     ∀ (l : List Structure), fragL env.elements l = true → ∀ (k : Nat) (code : List PyStmt) (k' : Nat),
       transpileL env k l = .ok (code, k') → Sims cfg env n l code
   | [], _, k, code, k', ht => by
@@ -397,9 +466,9 @@ theorem simL (cfg : Cfg) (env : TEnv) (hE : cfg.elements = env.elements) (n : Na
         | ok r2 =>
           obtain ⟨b, k2⟩ := r2
           simp [hs, hr] at ht; obtain ⟨h1, _⟩ := ht; subst h1
-          exact sims_cons cfg n s rest a b (simS cfg env hE n ih s hf.1 k a k1 hs) (simL cfg env hE n ih rest hf.2 k1 b k2 hr)
+          exact sims_cons cfg n s rest a b (simS cfg env hE hM n ih s hf.1 k a k1 hs) (simL cfg env hE hM n ih rest hf.2 k1 b k2 hr)
 
-theorem simLL (cfg : Cfg) (env : TEnv) (hE : cfg.elements = env.elements) (n : Nat) (ih : ∀ m, m < n → SimAt cfg env m) :
+theorem simLL (cfg : Cfg) (env : TEnv) (hE : cfg.elements = env.elements) (hM : ModsOK env.modifiers) (n : Nat) (ih : ∀ m, m < n → SimAt cfg env m) :
     ∀ (bs : List (List Structure)), fragLL env.elements bs = true → ∀ (k : Nat) (cs : List (List PyStmt)) (k' : Nat),
       transpileLL env k bs = .ok (cs, k') → All2 (Sims cfg env n) bs cs
   | [], _, k, cs, k', ht => by
@@ -417,15 +486,15 @@ theorem simLL (cfg : Cfg) (env : TEnv) (hE : cfg.elements = env.elements) (n : N
         | ok r2 =>
           obtain ⟨b, k2⟩ := r2
           simp [hl, hr] at ht; obtain ⟨h1, _⟩ := ht; subst h1
-          exact .cons (sims_orPass' (simL cfg env hE n ih l hf.1 k a k1 hl)) (simLL cfg env hE n ih rest hf.2 k1 b k2 hr)
+          exact .cons (sims_orPass' (simL cfg env hE hM n ih l hf.1 k a k1 hl)) (simLL cfg env hE hM n ih rest hf.2 k1 b k2 hr)
 end
 
 /-- **every transpiled program of the fragment simulates, at every fuel** -/
-theorem simAt_all (cfg : Cfg) (env : TEnv) (hE : cfg.elements = env.elements) : ∀ n, SimAt cfg env n := by
+theorem simAt_all (cfg : Cfg) (env : TEnv) (hE : cfg.elements = env.elements) (hM : ModsOK env.modifiers) : ∀ n, SimAt cfg env n := by
   intro n
   induction n using Nat.strongRecOn with
   | ind n ih =>
     intro prog k code k' hf ht
-    exact simL cfg env hE n ih prog hf k code k' ht
+    exact simL cfg env hE hM n ih prog hf k code k' ht
 
 end Vy.Sem
